@@ -809,8 +809,9 @@ func (d Driver) tracesN(c *core.Ctx, latticeN, n int, space string, gen func(r *
 		bad := false
 		for _, op := range ops {
 			var res *canvas.Path
-			if ok, _ := latgeo.Try(func() { res = apply(op, latgeo.Build(ev.P, latgeo.Identity), latgeo.Build(ev.Q, latgeo.Identity)) }); !ok {
-				bad = true // a panic is not expressible as an observation: judged through the scenario path below
+			// under a watchdog: a call that does not return is judged (as timeout-<op>) through the scenario path below
+			if kind, _ := latgeo.Guard(20*time.Second, func() { res = apply(op, latgeo.Build(ev.P, latgeo.Identity), latgeo.Build(ev.Q, latgeo.Identity)) }); kind != "" {
+				bad = true // a panic or a hang is not expressible as an observation: judged through the scenario path below
 				break
 			}
 			w, err := latgeo.Windings(res, pts, 8)
